@@ -11,7 +11,7 @@ LEVEL = 'exploration'
 ENGINE = 'E1'
 TECHNIQUE = 'bounded exhaustive enumeration (full product look angle x zero distance x stored zero x wind, plus all single deviations over load and sight height); each cell zeroes with the real solver, fires back and measures the miss at the aim point'
 RULE = ('cells = look {-55,-30,-10,-1,0,1,10,30,55 deg} x zero distance {10,25,100,300,600,1000,1800 yd} x stored zero {0,10 MOA,-30 MOA,3 deg,20 deg} x wind '
-        '{none,cross 15 mph,tail 20,head 20} for the baseline load (quick: two stored zeros, wind on a sub-grid), plus one further deviation over '
+        '{none,cross 15 mph,tail 20,head 20,three segments with boundaries short of the zero distance} for the baseline load (quick: two stored zeros, wind on a sub-grid), plus one further deviation over '
         'load {G1 .365/2600, pellet G1 .03/900 fps} and sight height {3.2,0,-1 in}; domain = the same shot fired along the sight line reaches '
         'x = d cos(look) without a range error; non-trivial = in-domain cell with look != 0 or wind or a non-zero stored zero')
 ASSUMPTIONS = ['fail cells (iteration cap 1-2 from a cold start, targets far beyond reach) check the error / stored-zero clauses', '"one integration step of travel" = the configured maximum step (0.5 ft) (lenient reading)',
@@ -21,7 +21,7 @@ ASSUMPTIONS = ['fail cells (iteration cap 1-2 from a cold start, targets far bey
 LOOKS = [-55.0, -30.0, -10.0, -1.0, 0.0, 1.0, 10.0, 30.0, 55.0]
 DISTS = [10.0, 25.0, 100.0, 300.0, 600.0, 1000.0, 1800.0]
 STORED = [0.0, 10 / 60, -0.5, 3.0, 20.0]
-WINDS = ['none', 'cross15', 'tail', 'head']
+WINDS = ['none', 'cross15', 'tail', 'head', 'seg3']
 LOADS = {'base': {}, 'g1': {'dm': 'G1', 'bc': 0.365, 'mv': 2600.0}, 'pellet': {'dm': 'G1', 'bc': 0.03, 'mv': 900.0}}
 ACC = 0.000005
 MAX_STEP = 0.5
@@ -106,6 +106,8 @@ def plan(tier):
         for look, d, st in itertools.product(LOOKS, DISTS[:6], [0.0, 3.0]):
             cells.append([look, d, st, 'none', 'base', 2.0])
         for look, d, w in itertools.product([-30.0, 0.0, 10.0, 55.0], [25.0, 300.0], WINDS[1:]):
+            if w == 'seg3':
+                d = {25.0: 100.0, 300.0: 300.0}[d]      # boundaries at 60/150/400 yd must lie short of the zero distance
             cells.append([look, d, 10 / 60, w, 'base', 2.0])
         for look, d in itertools.product([-10.0, 0.0, 30.0], [100.0, 600.0]):
             for load in ('g1', 'pellet'):
